@@ -253,8 +253,17 @@ func encodeFloat(x float64) []byte {
 
 	const numDigits = 9
 
+	// math.Log10 and math.Pow10 are not accurate for subnormal numbers
+	// (Pow10 even underflows to zero): scale very small numbers up first.
+	shift := 0
+	if x < 1e-290 {
+		x *= 1e200
+		shift = 200
+	}
+
 	l := int(math.Floor(math.Log10(x))) + 1
 	i := int(math.Round(x / math.Pow10(l-numDigits)))
+	l -= shift
 	if i < 100_000_000 {
 		l--
 		i *= 10
